@@ -106,6 +106,9 @@ class MaxDepthDecider(BaseDecider):
         alternatives = [
             x for x in alternatives if self.grammar.get_distance_to_terminal(x) <= (self.max_depth - ctx.depth)
         ]
+        if not alternatives:
+            # only possible after backtracking has ruled out every production that fits
+            raise SynthesisException(f"No production of {ty} fits the remaining depth")
         return self.random.choice(alternatives)
 
     def validate(self) -> None:
@@ -142,6 +145,8 @@ class FullDecider(MaxDepthDecider):
             c_alternatives = [
                 x for x in alternatives if self.grammar.get_distance_to_terminal(x) <= (self.max_depth - ctx.depth)
             ]
+        if not c_alternatives:
+            raise SynthesisException(f"No production of {ty} fits the remaining depth")
         return self.random.choice(c_alternatives)
 
 
@@ -177,6 +182,8 @@ class PositionIndependentGrowDecider(MaxDepthDecider):
             c_alternatives = baseline
         if not c_alternatives:
             c_alternatives = baseline
+        if not c_alternatives:
+            raise SynthesisException(f"No production of {ty} fits the remaining depth")
         return self.random.choice(c_alternatives)
 
 
